@@ -108,7 +108,7 @@ def _fields(npts, cplx=False):
     dense[tuple(n // 2 for n in npts)] = -3.0
     dense[tuple((n // 2 + 1) % n for n in npts)] = 3.0
     F.append(('dense', dense))
-    F.append(('tiny', 1e-11 * dense))          # nothing may be treated as zero by an absolute tolerance
+    F.append(('tiny', 1e-20 * dense))          # nothing may be treated as zero by an absolute tolerance
     corners = list(itertools.product(*[(0, n - 1) for n in npts]))[::3] + [tuple(n // 2 for n in npts), tuple((n // 2 + 1) % n for n in npts)]
     for gi in corners:
         e = np.zeros(npts)
